@@ -139,7 +139,7 @@ def run_shard(args):
     excluded = set()
     t_start = time.time()
     remaining = n_examples
-    shrink_budget = 40.0 if tier == 'quick' else 150.0
+    shrink_budget = 25.0 if tier == 'quick' else 120.0
     strategy = mod.strategy(tier)
     for rnd in range(max_rounds):
         if remaining <= 0 or stats.harness_error:
@@ -337,7 +337,7 @@ def main(argv=None):
     shards = budget.get('shards', 1)
     n_examples = budget['max_examples']
     time_budget = budget.get('time_budget', 150 if tier == 'quick' else 2400)
-    max_rounds = budget.get('max_rounds', 5)
+    max_rounds = budget.get('max_rounds', 4)
     total = Stats()
     found = {}
     # 1. replay tier
